@@ -192,7 +192,7 @@ class C17Engine(Engine):
     bounds = {"commands per program": "2..16"}
 
     def strategies(self, tier: str):
-        return [("default", st.binary(min_size=NB, max_size=NB).map(decode), 1500 if tier == "quick" else 60000)]
+        return [("default", st.binary(min_size=NB, max_size=NB).map(decode), 3000 if tier == "quick" else 100000)]
 
     def nontrivial(self, case: dict, out: dict) -> bool:
         l = set(out.get("labels", ()))
